@@ -42,6 +42,7 @@ pub fn ops_for_len(len: i64) -> Vec<COp> {
         Dedup { v },
         DedupByKey { v, m: 2 },
         DedupByKey { v, m: 1 },
+        DedupBy { v },
         Retain { v, m: 2 },
         Retain { v, m: 1 },
         Retain { v, m: 100 },
@@ -96,6 +97,7 @@ pub fn ops_for_len(len: i64) -> Vec<COp> {
 fn base_vec(len: i64) -> Vec<COp> {
     // values chosen so that dedup / retain / dedup_by_key have something to do
     let vals: Vec<i64> = [2, 2, 3, 4, 4, 6].iter().cloned().take(len as usize).collect();
+    let vals: Vec<i64> = if len >= 3 && len % 2 == 1 { vec![4, 2, 3, 3, 6, 5].into_iter().take(len as usize).collect() } else { vals };
     vec![COp::NewVec { v: 1, cap: 2 }, COp::Push { v: 1, val: 50 }, COp::FromIter { v: 0, vals }]
 }
 
@@ -141,7 +143,13 @@ pub fn small_alphabet(len: i64) -> Vec<COp> {
         DrainFilter { v, m: 2, take: 1 },
         Dedup { v },
         DedupByKey { v, m: 2 },
+        DedupBy { v },
         Reserve { v, n: 10, exact: false, fallible: false },
+        Reserve { v, n: 2, exact: true, fallible: false },
+        Reserve { v, n: 1, exact: true, fallible: true },
+        Splice { v, r: rg(1, 1, 2, 2), vals: vec![11, 12, 13, 14], take: 0 },
+        Splice { v, r: rg(1, 0, 2, 1), vals: vec![21, 22, 23], take: 1 },
+        Canary { size: 16 },
         ShrinkToFit { v },
         CloneVec { v, w: 1 },
         IntoIter { v, front: 1, back: 1 },
@@ -194,6 +202,7 @@ pub fn panics(maxlen: i64) -> Vec<CProgram> {
             DrainFilter { v, m: 4, take: -1 },
             Dedup { v },
             DedupByKey { v, m: 2 },
+            DedupBy { v },
             Resize { v, n: len + 3, val: 4 },
             Resize { v, n: 0, val: 4 },
             Extend { v, vals: vec![5, 6, 7] },
